@@ -704,6 +704,12 @@ def _rpe_core(ctx, r):
     metric = ctor[0].data["result"]
     want = T("list", const(0), T("star", tm.attr(metric, "delta_ids")))
     one = list(ids)[0] if len(ids) == 1 else None
+    if one is not None:
+        # list(x) of the id list is a copy of it
+        one = one.map(lambda x: x.args[1][0] if (
+            is_call_to(x, "builtins.list") and len(x.args[1]) == 1 and
+            not x.args[2] and x.args[1][0] is tm.attr(metric, "delta_ids"))
+            else None)
     shape_ok = one is not None and (
         (one.op == "binop" and one.args[0] == "Add" and
          one.args[1] is T("list", const(0)) and
